@@ -3,11 +3,11 @@ import itertools
 import re
 from .. import vlib
 from ..vlib import cN, clist
-from ..translate import tr_decoders, tr_handlers, tr_format
+from ..translate import tr_decoders, tr_handlers, tr_format, tr_trace
 from ..harness.streams import StreamGen
 from . import pairing_common as pc
 
-TRANSLATORS = [tr_handlers.translate, tr_decoders.translate, tr_format.translate]
+TRANSLATORS = [tr_handlers.translate, tr_decoders.translate, tr_format.translate, tr_trace.translate]
 MODEL_TARGETS = ['theories/FormatCases.vo']
 PROOF_TARGETS = ['props/C14.vo']
 PROP_FILE = 'props/C14.v'
